@@ -51,7 +51,17 @@ func GenRefGraph(t *rapid.T, label string) *GraphCase {
 		}
 		return rapid.SampledFrom(names).Draw(t, l)
 	}
+	var plainRefNode func(l string) *ref.SNode
 	refNode := func(l string) *ref.SNode {
+		n := plainRefNode(l)
+		if n.Kind == ref.SRef && rapid.IntRange(0, 5).Draw(t, l+"Nullable") == 0 {
+			// nullable written on a reference: null becomes one more admitted value, the reference
+			// stays what it is (a required reference is no optional property, array or alternative)
+			n.Rules = append(n.Rules, BoolRule("nullable", rapid.IntRange(0, 3).Draw(t, l+"NullableValue") != 0))
+		}
+		return n
+	}
+	plainRefNode = func(l string) *ref.SNode {
 		switch k := rapid.IntRange(0, 9).Draw(t, l+"Form"); {
 		case k <= 3:
 			return &ref.SNode{Kind: ref.SRef, Names: []string{pick(l + "A")}}
